@@ -48,6 +48,7 @@ type statsProcessor struct {
 	processorType        structs.QueryType
 	errorData            *ErrorData
 	hasFinalResult       bool
+	finalResult          *iqr.IQR
 	setAsIqrStatsResults bool
 
 	gaveResults bool
@@ -119,6 +120,7 @@ func (p *statsProcessor) Cleanup() {
 	}
 
 	p.searchResults = nil
+	p.finalResult = nil
 	p.errorData = nil
 }
 
@@ -141,16 +143,32 @@ func (p *statsProcessor) extractFinalStatsResults() (*iqr.IQR, error) {
 		return nil, io.EOF
 	}
 
-	iqr := iqr.NewIQR(p.qid)
+	// Extract the results only once; extracting folds the collected stats
+	// into the running totals, so doing it again (after a Rewind()) would
+	// count them twice. Hand out a copy: the commands downstream modify what
+	// they are given in place.
+	if p.finalResult != nil {
+		return p.finalResult.Copy(), io.EOF
+	}
 
+	result := iqr.NewIQR(p.qid)
+
+	var err error
 	switch p.processorType {
 	case structs.GroupByCmd:
-		return p.extractGroupByResults(iqr)
+		result, err = p.extractGroupByResults(result)
 	case structs.SegmentStatsCmd:
-		return p.extractSegmentStatsResults(iqr)
+		result, err = p.extractSegmentStatsResults(result)
 	default:
 		return nil, utils.TeeErrorf("qid=%v, statsProcessor.extractFinalStatsResults: invalid processor type", p.qid)
 	}
+
+	if err != nil && err != io.EOF {
+		return nil, err
+	}
+
+	p.finalResult = result
+	return p.finalResult.Copy(), err
 }
 
 func (p *statsProcessor) processGroupByRequest(inputIQR *iqr.IQR) (*iqr.IQR, error) {
